@@ -229,6 +229,233 @@ theorem rfc20_no_effect (r5322 : Bool) (s : List Nat) (h : ∀ c ∈ s, rfc20set
   · rfl
   · exact rfc20_no_effect_loop r5322 _ s (Nat.le_refl _) h none false false
 
+
+/-! ### RFC6531_FOLLOW_RFC20 rejects exactly the local parts having one of the seven characters outside quotes -/
+
+/-- "one of `ex` occurs outside quotes": a quoted run starts at `"` and ends at the next `"` that is not escaped
+by a backslash (state: inside quotes, after a backslash) -/
+def outsideHit (ex : List Nat) : Bool → Bool → List Nat → Bool
+  | _, _, [] => false
+  | q, esc, c :: cs =>
+    if !q then (if c == 34 then outsideHit ex true false cs else ex.contains c || outsideHit ex false false cs)
+    else if esc then outsideHit ex true false cs
+    else if c == 34 then outsideHit ex false false cs
+    else if c == 92 then outsideHit ex true true cs
+    else outsideHit ex true false cs
+
+theorem utf8Enc_high {c : Nat} (h : c > 127) : ∀ b ∈ utf8Enc c, b ≥ 128 := by
+  intro b hb
+  unfold utf8Enc at hb
+  have h1 : ¬ c < 128 := by omega
+  simp only [h1, if_false] at hb
+  split at hb
+  · simp at hb; omega
+  · split at hb
+    · simp at hb; omega
+    · simp at hb; omega
+
+theorem outsideHit_high (q : Bool) : ∀ (hi rest : List Nat), (∀ b ∈ hi, b ≥ 128) →
+    outsideHit rfc20set q false (hi ++ rest) = outsideHit rfc20set q false rest
+  | [], _, _ => rfl
+  | b :: hi, rest, h => by
+    have hb : b ≥ 128 := h b (by simp)
+    have ih := outsideHit_high q hi rest (fun x hx => h x (by simp [hx]))
+    have h34 : (b == 34) = false := by simp; omega
+    have h92 : (b == 92) = false := by simp; omega
+    have hex : rfc20set.contains b = false := by
+      simp only [rfc20set, List.contains_cons, List.contains_nil, Bool.or_false, Bool.or_eq_false_iff, beq_eq_false_iff_ne, ne_eq]
+      omega
+    cases q with
+    | false =>
+      simp only [List.cons_append, outsideHit, Bool.not_false, if_true, h34, Bool.false_eq_true, if_false, hex, Bool.false_or]
+      exact ih
+    | true =>
+      simp only [List.cons_append, outsideHit, Bool.not_true, Bool.false_eq_true, if_false, h34, h92]
+      exact ih
+
+theorem unq_indep (ex : List Nat) (prev : Option Nat) (c : Nat) (rest : List Nat)
+    (h : (c == 34 || c == 46 || specials.contains c) = true) : unquotedStep ex prev c rest = unquotedStep [] prev c rest := by
+  unfold unquotedStep
+  by_cases h34 : (c == 34) = true
+  · simp only [h34, if_true]
+  · by_cases h46 : (c == 46) = true
+    · simp only [h34, h46, if_true, Bool.false_eq_true, if_false]
+    · have hsp : specials.contains c = true := by simpa [h34, h46] using h
+      simp only [h34, h46, Bool.false_eq_true, if_false, hsp, Bool.true_or, if_true]
+
+theorem unq_plain (ex : List Nat) (prev : Option Nat) (c : Nat) (rest : List Nat)
+    (h : (c == 34 || c == 46 || specials.contains c) = false) :
+    unquotedStep ex prev c rest = if ex.contains c then .error (-(E.LPART_SPECIAL : Int)) else .ok false := by
+  simp only [Bool.or_eq_false_iff] at h
+  unfold unquotedStep
+  simp only [h.1.1, h.1.2, h.2, Bool.false_eq_true, if_false, Bool.false_or]
+
+theorem unq_ok_q {prev : Option Nat} {c : Nat} {rest : List Nat} {q' : Bool} (h : unquotedStep [] prev c rest = .ok q') :
+    q' = (c == 34) := by
+  unfold unquotedStep at h
+  by_cases h34 : (c == 34) = true
+  · simp only [h34, if_true] at h
+    split at h
+    · cases h; exact h34.symm
+    · cases h
+  · simp only [h34, Bool.false_eq_true, if_false] at h
+    have h34' : (c == 34) = false := by simpa using h34
+    rw [h34']
+    repeat' split at h
+    all_goals first | (cases h; rfl) | cases h
+
+theorem specials_not_rfc20 {c : Nat} (h : (c == 46 || specials.contains c) = true) : rfc20set.contains c = false := by
+  simp only [specials, rfc20set, List.contains_cons, List.contains_nil, Bool.or_false, Bool.or_eq_true, beq_iff_eq,
+    Bool.or_eq_false_iff, beq_eq_false_iff_ne, ne_eq] at h ⊢
+  omega
+
+theorem rfc20_exact_loop (r5322 : Bool) : ∀ (n : Nat) (inp : List Nat), inp.length ≤ n →
+    ∀ (prev : Option Nat) (q qp : Bool), (q = false → qp = false) →
+    (loc6531Loop { rfc20 := true, rfc5322 := r5322 } prev q qp inp = 0 ↔
+      loc6531Loop { rfc20 := false, rfc5322 := r5322 } prev q qp inp = 0 ∧ outsideHit rfc20set q qp inp = false) := by
+  intro n
+  induction n with
+  | zero =>
+    intro inp h prev q qp _
+    have : inp = [] := List.length_eq_zero_iff.mp (by omega)
+    subst this
+    rw [loc6531Loop.eq_def, loc6531Loop.eq_def (b := { rfc20 := false, rfc5322 := r5322 })]
+    simp [decodeNext, outsideHit]
+  | succ n ih =>
+    intro inp h prev q qp hinv
+    have rej : ∀ {e : Int} {P : Prop}, e < 0 → (e = 0 ↔ e = 0 ∧ P) := by
+      intro e P he
+      constructor <;> intro hh
+      · omega
+      · omega
+    rw [loc6531Loop.eq_def, loc6531Loop.eq_def (b := { rfc20 := false, rfc5322 := r5322 })]
+    cases hd : decodeNext inp with
+    | fin =>
+      have := decodeNext_fin hd; subst this
+      simp [outsideHit]
+    | err => simp only; exact rej (by decide)
+    | ch c rest =>
+      have hl : rest.length ≤ n := by have := decodeNext_length hd; omega
+      obtain ⟨_, hs⟩ := decodeNext_sound hd
+      have IH := fun p q' qp' hi => ih rest hl p q' qp' hi
+      simp only
+      by_cases hhi : c > 127
+      · -- a non-ASCII character: never one of the seven, never a quote or a backslash
+        simp only [hhi, if_true]
+        cases qp with
+        | true => simp only [if_true]; exact rej (by decide)
+        | false =>
+          simp only [Bool.false_eq_true, if_false]
+          rw [IH _ q false hinv, hs, outsideHit_high q _ rest (utf8Enc_high hhi)]
+      · have hlt : c < 128 := by omega
+        have hinp : inp = c :: rest := by rw [hs]; simp [utf8Enc, hlt]
+        simp only [hhi, if_false]
+        by_cases hc1 : (!r5322 && isCntrl c) = true
+        · simp only [hc1, if_true]; exact rej (by decide)
+        · simp only [hc1, Bool.false_eq_true, if_false]
+          cases q with
+          | false =>
+            have hqp : qp = false := hinv rfl
+            subst hqp
+            simp only [Bool.not_false, if_true, Bool.and_true]
+            by_cases hc2 : (r5322 && isCntrl c) = true
+            · simp only [hc2, if_true]; exact rej (by decide)
+            · simp only [hc2, Bool.false_eq_true, if_false]
+              rw [hinp]
+              by_cases hA : (c == 34 || c == 46 || specials.contains c) = true
+              · -- quote, dot or special: the option plays no part
+                rw [unq_indep rfc20set prev c rest hA]
+                cases hu : unquotedStep [] prev c rest with
+                | error e => simp only; exact rej (C01.unq_err_neg hu)
+                | ok q' =>
+                  simp only
+                  have hq' := unq_ok_q hu
+                  by_cases h34 : (c == 34) = true
+                  · rw [h34] at hq'; subst hq'
+                    simp only [outsideHit, Bool.not_false, if_true, h34]
+                    exact IH _ true false (fun h => by cases h)
+                  · have h34' : (c == 34) = false := by simpa using h34
+                    rw [h34'] at hq'; subst hq'
+                    have hex : rfc20set.contains c = false := specials_not_rfc20 (by simpa [h34'] using hA)
+                    simp only [outsideHit, Bool.not_false, if_true, h34', Bool.false_eq_true, if_false, hex, Bool.false_or]
+                    exact IH _ false false (fun _ => rfl)
+              · have hA' : (c == 34 || c == 46 || specials.contains c) = false := by simpa using hA
+                rw [unq_plain rfc20set prev c rest hA', unq_plain [] prev c rest hA']
+                have h34' : (c == 34) = false := by
+                  simp only [Bool.or_eq_false_iff] at hA'; exact hA'.1.1
+                by_cases hex : rfc20set.contains c = true
+                · -- one of the seven, outside quotes: the option rejects, and this is a hit
+                  simp only [hex, if_true, List.contains_nil, Bool.false_eq_true, if_false, outsideHit, Bool.not_false, h34',
+                    Bool.true_or]
+                  constructor <;> intro hh
+                  · exact absurd hh (by decide)
+                  · exact absurd hh.2 (by decide)
+                · have hex' : rfc20set.contains c = false := by simpa using hex
+                  simp only [hex', List.contains_nil, Bool.false_eq_true, if_false, outsideHit, Bool.not_false, if_true, h34',
+                    Bool.false_or]
+                  exact IH _ false false (fun _ => rfl)
+          | true =>
+            simp only [Bool.not_true, Bool.false_eq_true, if_false]
+            rw [hinp]
+            cases qp with
+            | true =>
+              simp only [if_true, outsideHit, Bool.not_true, Bool.false_eq_true, if_false]
+              exact IH _ true false (fun h => by cases h)
+            | false =>
+              simp only [Bool.false_eq_true, if_false, outsideHit, Bool.not_true]
+              by_cases h34 : (c == 34) = true
+              · simp only [h34, if_true]
+                by_cases hcl : closeOk rest = true
+                · simp only [hcl, if_true]; exact IH _ false false (fun _ => rfl)
+                · simp only [hcl, Bool.false_eq_true, if_false]; exact rej (by decide)
+              · simp only [h34, Bool.false_eq_true, if_false]
+                by_cases h92 : (c == 92) = true
+                · simp only [h92, if_true]
+                  exact IH _ true true (fun h => by cases h)
+                · simp only [h92, Bool.false_eq_true, if_false]
+                  have IHt := IH (some c) true false (fun h => by cases h)
+                  by_cases hb : (r5322 && blanks.contains c) = true
+                  · simp only [hb, if_true, List.head?_cons]
+                    cases prev with
+                    | none =>
+                      simp only [Bool.false_eq_true, if_false]
+                      cases hh : rest.head? with
+                      | none => exact IHt
+                      | some nx =>
+                        simp only
+                        by_cases hn : (decide (nx > 127) || wsq.contains nx) = true
+                        · simp only [hn, if_true]; exact IHt
+                        · simp only [hn, Bool.false_eq_true, if_false]; exact rej (by decide)
+                    | some p =>
+                      simp only
+                      by_cases hw : wsq.contains p = true
+                      · simp only [hw, if_true]; exact IHt
+                      · simp only [hw, Bool.false_eq_true, if_false]
+                        cases hh : rest.head? with
+                        | none => exact IHt
+                        | some nx =>
+                          simp only
+                          by_cases hn : (decide (nx > 127) || wsq.contains nx) = true
+                          · simp only [hn, if_true]; exact IHt
+                          · simp only [hn, Bool.false_eq_true, if_false]; exact rej (by decide)
+                  · simp only [hb, Bool.false_eq_true, if_false, List.head?_cons]; exact IHt
+
+/-- **RFC6531_FOLLOW_RFC20, exactly**: with the option a local part is accepted in mode 6531 iff it is accepted
+without it and none of `# ^ ` { | } ~` occurs outside quotes -/
+theorem rfc20_exact (r5322 : Bool) (s : List Nat) :
+    is6531Local { rfc20 := true, rfc5322 := r5322 } s = 0 ↔
+      (is6531Local { rfc20 := false, rfc5322 := r5322 } s = 0 ∧ outsideHit rfc20set false false s = false) := by
+  unfold is6531Local
+  split
+  · constructor <;> intro hh
+    · exact absurd hh (by decide)
+    · exact absurd hh.1 (by decide)
+  · exact rfc20_exact_loop r5322 _ s (Nat.le_refl _) none false false (fun _ => rfl)
+
+example : outsideHit rfc20set false false [97, 35, 98] = true := by decide            -- a#b
+example : outsideHit rfc20set false false [34, 97, 35, 98, 34] = false := by decide   -- "a#b"
+example : outsideHit rfc20set false false [34, 92, 34, 35, 34] = false := by decide   -- "\"#"  (escaped quote does not close)
+
 /-- the default build has all three options off, and `ON` is what switches each one on -/
 theorem defaults_off : Gen.buildOpts.all (fun o => o.2.1 == "OFF" && o.2.2.1 == "ON" && o.2.2.2 == o.1) = true := by decide
 
